@@ -266,7 +266,7 @@ pub fn expect(sc: &Scenario, doc: &InputDoc, recvs: &'static BTreeMap<&'static s
     let mut m = Model::new(recvs, env);
     input::for_each_item(doc, &mut |it| {
         // the token that starts at an item's position: the first `:` of `::`, or the first path segment
-        let first_len = if it.name.starts_with("::") { 1 } else { it.name.split("::").next().map(|s| s.len()).unwrap_or(0) };
+        let first_len = if it.name.starts_with("::") { 1 } else { it.name.split("::").next().map(|s| s.chars().count()).unwrap_or(0) };
         let start = it.r_path.0;
         m.remote_ranges.insert(start, (start, (start.0, start.1 + first_len)));
     });
